@@ -7,7 +7,7 @@ VERIF = os.path.dirname(os.path.dirname(os.path.abspath(__file__)))
 TECH = ("Lean 4 theorems about a hand-written model + differential correspondence (same cases through the real code and the model "
         "driver); decision functions, range filters, preconditions and the arithmetic / branch conditions of the core loops are "
         "regenerated from the Rust source on every run and proved equal to the model's (obligations OverlapsGen, FiltersGen, "
-        "ValidateGen, AtomsGen)")
+        "ValidateGen, Atoms<Group>, ConvGen, WriteGen<File>)")
 NOTE = ("Trusted: Lean 4.33 kernel; axioms propext / Classical.choice / Quot.sound only; the hand-written model "
         "(tied to /repo by this check's correspondence run, by constants re-extracted from the source and by the expressions "
         "regenerated from the source with tools/rs2lean.py — the translator is trusted for those); the harness, "
